@@ -63,6 +63,9 @@ func HarnessAddStep(k int, nForbidden int) {
 		hashes, prevs = append(hashes, pre[i].Hash), append(prevs, pre[i].Prev)
 	}
 	vh.Assume(hstore.Acyclic(hashes, prevs))
+	if k > 0 {
+		vh.Assume(!vh.HashEq(newHash, pre[0].Prev)) // no header hashes to genesis's previous-hash field
+	}
 	// finding F2: a zero-work header (non-positive target) whose parent is on the longest chain
 	parentLongest := false
 	for i := range pre {
